@@ -28,6 +28,9 @@ func NewListRange(expression string) (lr *ListRange, err error) {
 	}
 	rowsExpression := expression[bang+1:]
 	startEndStr := strings.Split(rowsExpression, "-")
+	if len(startEndStr) > 2 {
+		return nil, listRangeErr
+	}
 	if lr.StartRow, err = strconv.ParseInt(startEndStr[0], 10, 64); err != nil {
 		return nil, listRangeErr
 	}
